@@ -1,0 +1,19 @@
+//go:build verif
+// +build verif
+
+package spg
+
+import "math/big"
+
+// Verification hooks. Compiled only with -tags verif; they add entry points
+// and never change the behaviour of existing code.
+
+// VerifDraw exposes the bounded draw so that bounds up to 2^32-1 can be exercised.
+func VerifDraw(n uint32) uint32 { return randomUint32n(n) }
+
+// VerifCount returns the exact number of passwords the recipe can generate
+// (the integer whose log2 Entropy() reports when sets are required).
+func (r CharRecipe) VerifCount() *big.Int {
+	r.buildCharacterList()
+	return r.n()
+}
